@@ -236,6 +236,15 @@ func Bin(op Op, a, b *Term) *Term {
 	if op == OSub && a == b {
 		return BV(w, 0)
 	}
+	if op == OAdd {
+		// reassociate constants: (x + c1) + c2 = x + (c1+c2) (modular arithmetic, always sound)
+		if a.IsConst() {
+			a, b = b, a
+		}
+		if b.IsConst() && a.Op == OAdd && len(a.A) == 2 && a.A[1].IsConst() {
+			return Bin(OAdd, a.A[0], BV(w, evalBin(OAdd, w, a.A[1].Val, b.Val)))
+		}
+	}
 	return mk(op, w, a, b)
 }
 
